@@ -18,12 +18,13 @@ import (
 func newBig(i int64) *big.Int { return big.NewInt(i) }
 
 type Program struct {
-	Repo      string
-	Prog      *ssa.Program
-	Pkgs      map[string]*ssa.Package // by path
-	Contracts map[string]*Contract    // key: pkgPath + "::" + name ; externals: "ext::" + name
-	ConFiles  []string
-	Findings  map[string]*Finding
+	Repo       string
+	Prog       *ssa.Program
+	Pkgs       map[string]*ssa.Package // by path
+	Contracts  map[string]*Contract    // key: pkgPath + "::" + name ; externals: "ext::" + name
+	ConFiles   []string
+	Findings   map[string]*Finding
+	Invariants []*Clause
 
 	mu        sync.Mutex
 	strIDs    map[string]int
@@ -137,6 +138,9 @@ func (P *Program) expandAuto(c *Contract, fn *ssa.Function) error {
 		*list = append(*list, cl)
 		return nil
 	}
+	if len(c.Keeps) == 0 {
+		c.Keeps = append(c.Keeps, "PrintCtx.off", "PrintCtx.lvl")
+	}
 	for _, p := range fn.Params {
 		switch pt := p.Type().Underlying().(type) {
 		case *types.Pointer:
@@ -148,7 +152,17 @@ func (P *Program) expandAuto(c *Contract, fn *ssa.Function) error {
 			}
 			if strings.HasSuffix(typeName(pt.Elem()), "logg/slog.PrintCtx") {
 				// representation invariant of the record buffer (bytes.Buffer's): 0 <= off <= len(buf)
-				inv := "0 <= " + p.Name() + ".off && " + p.Name() + ".off <= len(" + p.Name() + ".buf)"
+				// on the logging path the record buffer is never read, so its read offset stays 0
+				inv := p.Name() + ".off == 0"
+				hasKeep := false
+				for _, k := range c.Keeps {
+					if k == "PrintCtx.off" {
+						hasKeep = true
+					}
+				}
+				if !hasKeep {
+					c.Keeps = append(c.Keeps, "PrintCtx.off", "PrintCtx.lvl")
+				}
 				if err := add(&c.Requires, "[auto.pcinv] "+inv); err != nil {
 					return err
 				}
@@ -158,12 +172,30 @@ func (P *Program) expandAuto(c *Contract, fn *ssa.Function) error {
 				if err := add(&c.Ensures, "[auto.pcoff] implies(old("+p.Name()+".off) == 0, "+p.Name()+".off == 0)"); err != nil {
 					return err
 				}
+				n := p.Name()
+				var eqs []string
+				for _, f := range []string{"lvl", "msg", "kvps", "now", "stackFrame", "jsonMode", "noColor", "layout", "utcTime", "noQuoted", "dedupeAttrs"} {
+					eqs = append(eqs, n+"."+f+" == old("+n+"."+f+")")
+				}
+				// per-record configuration fields are written by set/setentry only
+				if err := add(&c.Ensures, "[auto.pcconfig] "+strings.Join(eqs, " && ")); err != nil {
+					return err
+				}
 			}
 		case *types.Interface:
 			if typeName(p.Type()) == "io.Writer" {
 				// the internal colour helpers are only ever handed the record buffer or a strings.Builder
 				d := "dyn(" + p.Name() + ", *PrintCtx)"
-				inv := "implies(typeis(" + p.Name() + ", *PrintCtx), " + d + " != nil && 0 <= " + d + ".off && " + d + ".off <= len(" + d + ".buf))"
+				inv := "implies(typeis(" + p.Name() + ", *PrintCtx), " + d + " != nil && " + d + ".off == 0)"
+				hasKeep := false
+				for _, k := range c.Keeps {
+					if k == "PrintCtx.off" {
+						hasKeep = true
+					}
+				}
+				if !hasKeep {
+					c.Keeps = append(c.Keeps, "PrintCtx.off", "PrintCtx.lvl")
+				}
 				if err := add(&c.Requires, "[auto.writer] typeis("+p.Name()+", *PrintCtx) || typeis("+p.Name()+", *strings.Builder)"); err != nil {
 					return err
 				}
@@ -180,6 +212,10 @@ func (P *Program) expandAuto(c *Contract, fn *ssa.Function) error {
 }
 
 func (P *Program) addContract(c *Contract) error {
+	if c.Name == "$invariant" {
+		P.Invariants = append(P.Invariants, c.Requires[0])
+		return nil
+	}
 	key := c.PkgPath + "::" + c.Name
 	if c.External {
 		key = "ext::" + c.Name
